@@ -326,7 +326,20 @@ func vfSitesInFunc(file, funcHeader string) []string {
 func TestVF_C10Perturbed(t *testing.T) {
 	c := vfNewCollector("C10", "TestVF_C10Perturbed")
 	defer vfFlushAll()
-	if vfReplayOnly() {
+	for _, f := range vfCaseFilesFor(c.Test) {
+		var cs vfC10Case
+		if err := jsonUnmarshal(f.Case, &cs); err != nil {
+			t.Errorf("bad case file %s: %v", f.Path, err)
+			continue
+		}
+		var res vfC10Res
+		if msg := vfGuard(func() string { return vfC10Run(cs, &res) }); msg != "" {
+			c.violation("regress:"+filepath.Base(f.Path), cs, msg)
+			t.Errorf("case file %s fails: %s", f.Path, msg)
+		}
+		vfC10Eval(c, cs, &res)
+	}
+	if vfReplayOnly() || t.Failed() {
 		return
 	}
 	var sites []string
